@@ -703,6 +703,12 @@ impl<'a, T: Copy> BlockQuantizedMatrix<'a, T> {
             return Err(BlockQuantizedError::UnsupportedBlockSize);
         }
 
+        // There must be one scale per block. The kernels rely on this when
+        // iterating over the scales and quantized data of each column together.
+        if scales.shape() != [quant.size(0), quant.size(1)] {
+            return Err(BlockQuantizedError::ScalesShapeMismatch);
+        }
+
         Ok(Self {
             quant,
             scales,
